@@ -8,8 +8,8 @@
 (* own actions (RaiseAt, Pass / Catch*, TopLevel); after every action the record it      *)
 (* holds must be the recorded one (clause = name of the diverging action).  At the top   *)
 (* level the LAWS are evaluated on the *observed* outcome (clause law:<name>); an        *)
-(* outcome that satisfies the laws but is neither what the transcribed mechanism nor     *)
-(* what the repaired mechanism yields is reported as drift.                              *)
+(* outcome that satisfies the laws but is not what the transcribed mechanism yields is   *)
+(* reported as drift.                                                                    *)
 EXTENDS GlomErrors, Json, IOUtils
 
 Rows == ndJsonDeserialize(IOEnv.TRACE_FILE)
@@ -61,9 +61,7 @@ TopObserved ==
          law == LawVerdict(r.kw, arr', o, leaf.id)
      IN rej' = IF Len(hist) # Len(r.ev) THEN Rej("chain", "length")
                ELSE IF law # "" THEN Rej("law", law)
-               ELSE IF ProjO(o, acid) # ProjO(x', acid)
-                       /\ ProjO(o, acid) # ProjO(TopOutcome(TRUE, r.kw, arr', leaf.id), acid)
-                    THEN Rej("drift", hist'[Len(hist')].a)
+               ELSE IF ProjO(o, acid) # ProjO(x', acid) THEN Rej("drift", hist'[Len(hist')].a)
                ELSE NoRej
 
 TNext == Load \/ Chain \/ TopObserved
